@@ -53,9 +53,15 @@ def _sample(pids: list[int]) -> dict[tuple[int, int], tuple[str, int, int]]:
     return snap
 
 
-def diagnose(pid: int, log_path: Path | None = None, samples: int = 5, span: float = 2.0) -> dict:
-    """Return {"verdict": "quiescent"|"active"|"gone", "threads": n, "stacks": str, ...}."""
-    pids = _descendants(pid)
+def diagnose(pid: int, log_path: Path | None = None, samples: int = 5, span: float = 2.0,
+             scope: str = "tree") -> dict:
+    """Return {"verdict": "quiescent"|"active"|"gone", "threads": n, "stacks": str, ...}.
+
+    scope="tree": the process and all its descendants must be asleep (a worker waiting for a busy child is
+    not blocked).  scope="process": only the process itself — for workloads whose only helper is a polling
+    feeder (FIFO gate), which must not mask a deadlocked worker; a healthy gated pass keeps waking the
+    worker's threads, so their context-switch counters move."""
+    pids = _descendants(pid) if scope == "tree" else [pid]
     snaps = []
     for k in range(samples):
         snaps.append(_sample(pids))
